@@ -19,8 +19,8 @@ RULE = ('one run = seeded universe with 1-3 ILI index files (overlapping ids, id
         'leaves every lexicon-owned row untouched; each add(index) is repeated (no change); '
         'the plan is re-run with all index loads moved to the front or to the end and the '
         'final ILI statuses/definitions must agree. distinct = event digests; non-trivial = '
-        'an index was loaded while >=1 lexicon using a listed ILI was installed. Two of the '
-        '3200 quick runs load an index of 40000 rows (more than SQLite has host parameters) '
+        'an index was loaded while >=1 lexicon using a listed ILI was installed. One or two of the '
+        '2600 quick runs load an index of 40000 rows (more than SQLite has host parameters) '
         'used by a small lexicon whose ILIs are listed all over the file')
 
 
@@ -133,7 +133,7 @@ def build_huge(seed):
 
 
 def is_huge(seed, tier):
-    return seed % 1600 == 9       # 2 of the 3200 quick runs, 20 of the 32000 thorough runs
+    return seed % 1600 == 9       # 1-2 of the 2600 quick runs, ~16 of the 26000 thorough runs
 
 
 def build(seed, tier='quick'):
